@@ -205,6 +205,60 @@ func H_C12_nested(cont, _ int) {
 	vdigest(out)
 }
 
+// H_C12_multiline(form, _): a full reference (form 0), an image reference (1) or a
+// definition (2) whose label continues on the next line, inside a container chosen by
+// the solver ("> ", ">", "- " with two-space continuation, "1. " with three). The
+// label's line ending and the container prefix of the continuation line are
+// whitespace to collapse, not label text: the reference resolves against "f g".
+func H_C12_multiline(form, _ int) {
+	c := vconcrete(nondetInt(0, 3))
+	first := []string{"> ", ">", "- ", "1. "}[c]
+	rest := []string{"> ", ">", "  ", "   "}[c]
+	l1, l2 := nondetByte(), nondetByte()
+	assume(isL(l1))
+	assume(isL(l2))
+	var doc []byte
+	doc = append(doc, first...)
+	switch form {
+	case 0:
+		doc = append(doc, "[t]["...)
+	case 1:
+		doc = append(doc, "![t]["...)
+	default:
+		doc = append(doc, '[')
+	}
+	doc = append(doc, l1, '\n')
+	doc = append(doc, rest...)
+	doc = append(doc, l2, ']')
+	if form == 2 {
+		doc = append(doc, ": /u\n\n[x]["...)
+		doc = append(doc, l1, ' ', l2, ']', '\n')
+	} else {
+		doc = append(doc, "\n\n["...)
+		doc = append(doc, l1, ' ', l2)
+		doc = append(doc, "]: /u\n"...)
+	}
+	blocks, refs := Parse(doc)
+	out := renderWith(&HTMLRenderer{ReferenceMap: refs}, blocks)
+	want := "href=\"/u\""
+	if form == 1 {
+		want = "src=\"/u\""
+	}
+	found := false
+	for i := 0; i+len(want) <= len(out); i++ {
+		if string(out[i:i+len(want)]) == want {
+			found = true
+		}
+	}
+	if !found {
+		vnote("doc=" + string(doc))
+		vnote("out=" + string(out))
+	}
+	check(found, "C12.multiline-label-resolves")
+	check(len(refs) == 1, "C12.multiline.single-key")
+	vdigest(out)
+}
+
 // ---------------------------------------------------------------- closure
 
 func c12KeyNormalized(k string) bool {
